@@ -194,8 +194,8 @@ type Program struct {
 const lineRegex = `^([^|]*)\|([^|]*)\|(.*)$`
 
 func programs() []*Program {
-	all := []string{"A", "B", "C", "D", "E"}
-	clean := []string{"A", "B", "D", "E"}
+	all := []string{"A", "B", "C", "D", "E", "F"}
+	clean := []string{"A", "B", "D", "E", "F"}
 	return []*Program{
 		{Name: "histo-count", Cmd: "histogram", Kind: "counter", Flags: []string{"-n", "50"}, Match: lineRegex,
 			Extract: [][]part{tpl(g(1))}, Corpora: all, HasCSV: true},
@@ -270,6 +270,9 @@ var recordPool = []string{
 	10: "pad|r 1|010",
 	11: "pad|r2|-007",
 	12: "a,x|r2|+09",
+	// an empty second field: the empty string as a row / sub-key / column
+	13: "a,x||3",
+	14: ` b "q"||1`,
 }
 
 type Corpus struct {
@@ -285,6 +288,7 @@ var corpora = map[string]*Corpus{
 	"C": {Name: "C", Recs: []int{7, 0, 8, 5, 1}},
 	"D": {Name: "D", Recs: []int{8, 9}, Small: true},
 	"E": {Name: "E", Recs: []int{10, 0, 11, 12, 2}},
+	"F": {Name: "F", Recs: []int{13, 0, 14, 5, 13}},
 }
 
 func (c *Corpus) lines(n int) []string {
